@@ -9,8 +9,12 @@
 #include "env.h"
 #include <stdlib.h>
 #include <sys/time.h>
+static bool heap_is_empty_after;
+#define stats_dump verif_stats_dump_hook
 #include <serial/serial.c>
+#undef stats_dump
 #include <mm/msg_allocator.c>
+void verif_stats_dump_hook(void) { heap_is_empty_after = heap_is_empty(queue); } /* called by serial_simulation_run() right after the loop */
 
 struct simulation_configuration global_config;
 __thread rid_t rid;
@@ -28,8 +32,10 @@ int gettimeofday(struct timeval *tv, void *tz)
 	return 0;
 }
 #endif
-void *rs_malloc(size_t n) { (void)n; return NULL; }
-void random_lib_lp_init(lp_id_t id, struct rng_ctx *c) { (void)id; (void)c; }
+void *verif_rs_malloc_full(void);
+void *rs_malloc(size_t n) { (void)n; return verif_rs_malloc_full(); }
+static unsigned seeded_cnt[2];
+void random_lib_lp_init(lp_id_t id, struct rng_ctx *c) { (void)c; if(id < 2) seeded_cnt[id]++; }
 void model_allocator_lp_init(struct mm_state *s) { (void)s; }
 void model_allocator_lp_fini(struct mm_state *s) { (void)s; }
 
@@ -196,4 +202,127 @@ void harness(void)
 	VERIF_WITNESS("serial end reachable");
 	if(n_rt == MAXEV)
 		VERIF_WITNESS("serial run with every scheduled event delivered reachable");
+}
+
+/* ---- the whole serial_simulation(): LP_INIT / LP_FINI bracketing and stop conditions ---- */
+#define MAXF (NLP * 2 + N0 + NSCHED + 2)
+static struct ev flog[MAXF];
+static unsigned n_f;
+static bool init_sends[NLP];
+static struct ev init_ev[NLP];
+static bool pred_tab[NLP][4];
+static unsigned pred_calls[NLP];
+static unsigned held_at[NLP]; /* dispatch count at which the LP's predicate first held (0 = never) */
+static int lp_state[NLP];
+static struct rng_ctx rng_store[NLP];
+static void model_full(lp_id_t me, simtime_t now, unsigned type, const void *c, unsigned size, void *st)
+{
+	if(n_f < MAXF) {
+		flog[n_f].lp = me;
+		flog[n_f].t = now;
+		flog[n_f].type = type;
+		flog[n_f].size = size;
+		flog[n_f].pl = size ? *(const unsigned char *)c : 0;
+	}
+	n_f++;
+	if(type == LP_INIT) {
+		VERIF_ASSERT(st == NULL && current_lp == &lps[me], "LP_INIT is dispatched on the LP's own context before any state exists");
+		SetState(&lp_state[me]);
+		if(init_sends[me])
+			ScheduleNewEvent(init_ev[me].lp, init_ev[me].t, init_ev[me].type, &init_ev[me].pl, init_ev[me].size);
+		return;
+	}
+	if(type == LP_FINI) {
+		VERIF_ASSERT(st == &lp_state[me], "LP_FINI sees the LP's state");
+		return;
+	}
+	VERIF_ASSERT(st == &lp_state[me], "events are handed the state pointer the LP set at LP_INIT");
+	if(ordinal < NSCHED) {
+		struct ev e = tab[ordinal];
+		e.t = now + e.t;
+		struct ev cur = {.lp = me, .t = now, .type = type, .size = size, .pl = size ? *(const unsigned char *)c : 0};
+		VERIF_ASSUME(!ref_before(&e, &cur));
+		ScheduleNewEvent(e.lp, e.t, e.type, &e.pl, e.size);
+	}
+	ordinal++;
+}
+static bool canend_full(lp_id_t me, const void *st)
+{
+	(void)st;
+	unsigned k = pred_calls[me] < 4 ? pred_calls[me] : 3;
+	pred_calls[me]++;
+	bool r = pred_tab[me][k];
+	if(r && !held_at[me])
+		held_at[me] = n_f;
+	return r;
+}
+void SetState(void *s) { current_lp->state_pointer = s; }
+void ScheduleNewEvent(lp_id_t r, simtime_t t, unsigned ty, const void *p, unsigned sz) { ScheduleNewEvent_serial(r, t, ty, p, sz); }
+void *verif_rs_malloc_full(void) { return &rng_store[current_lp - lps]; }
+
+void harness_full(void)
+{
+	global_config.lps = NLP;
+	global_config.serial = true;
+	global_config.dispatcher = model_full;
+	global_config.committed = canend_full;
+	bool with_tt = vin_bool();
+	global_config.termination_time = with_tt ? 1.0 : SIMTIME_MAX;
+	global_config.gvt_period = vin_u32() & 0xff;
+	global_config.log_level = LOG_SILENT;
+	for(unsigned i = 0; i < NLP; i++) {
+		init_sends[i] = vin_bool();
+		init_ev[i].lp = vin_upto(NLP - 1);
+		init_ev[i].t = (double)vin_upto(2);
+		init_ev[i].type = vin_upto(1);
+		init_ev[i].size = vin_upto(1);
+		init_ev[i].pl = init_ev[i].size ? (vin_u8() & 1) : 0;
+		for(unsigned k = 0; k < 4; k++)
+			pred_tab[i][k] = vin_bool();
+	}
+	for(unsigned k = 0; k < NSCHED; k++) {
+		tab[k].lp = vin_upto(NLP - 1);
+		tab[k].t = (double)vin_upto(1);
+		tab[k].type = vin_upto(1);
+		tab[k].size = vin_upto(1);
+		tab[k].pl = tab[k].size ? (vin_u8() & 1) : 0;
+	}
+	ordinal = 0;
+
+	int rc = serial_simulation();
+
+	VERIF_ASSERT(rc == 0, "the run returns normally");
+	VERIF_ASSERT(n_f >= 2 * NLP && n_f <= MAXF, "at least LP_INIT and LP_FINI per LP are dispatched");
+	for(unsigned i = 0; i < NLP; i++) {
+		VERIF_ASSERT(flog[i].type == LP_INIT && flog[i].lp == i && flog[i].t == 0.0, "the run starts with LP_INIT for every LP, once, in id order, at time 0");
+		VERIF_ASSERT(flog[n_f - NLP + i].type == LP_FINI && flog[n_f - NLP + i].lp == i, "the run ends with LP_FINI for every LP, once, in id order");
+		VERIF_ASSERT(seeded_cnt[i] == 1, "every LP's generator is seeded exactly once, with its id");
+	}
+	unsigned n_ev = n_f - 2 * NLP;
+	bool all_held = true;
+	unsigned last_held = 0;
+	for(unsigned i = 0; i < NLP; i++) {
+		all_held = all_held && held_at[i] != 0;
+		if(held_at[i] > last_held)
+			last_held = held_at[i];
+	}
+	for(unsigned k = NLP; k < MAXF; k++)
+		if(k < n_f - NLP) {
+			VERIF_ASSERT(flog[k].type != LP_INIT && flog[k].type != LP_FINI, "no LP_INIT/LP_FINI in between");
+			if(k > NLP)
+				VERIF_ASSERT(flog[k - 1].t <= flog[k].t, "events are delivered in non-decreasing timestamp order");
+		}
+	unsigned scheduled = 0;
+	for(unsigned i = 0; i < NLP; i++)
+		scheduled += init_sends[i];
+	if(all_held)
+		VERIF_ASSERT(last_held == NLP + n_ev, "the run stops right at the event after which every LP's predicate has held");
+	else if(n_ev)
+		VERIF_ASSERT(heap_is_empty_after || (with_tt && flog[NLP + n_ev - 1].t >= 1.0), "otherwise it stops only when no event is left or an event at/after the termination time was delivered at a GVT tick");
+	VERIF_WITNESS("full run end reachable");
+	if(all_held && n_ev >= 2)
+		VERIF_WITNESS("full run stopped by the predicates after two events reachable");
+	if(!all_held && with_tt && n_ev >= 1 && !heap_is_empty_after)
+		VERIF_WITNESS("full run stopped by the termination time reachable");
+	(void)scheduled;
 }
